@@ -412,4 +412,124 @@ def rule_e(ctx):
     c12f(ctx)
 
 
-RULES = [('C19.a', rule_a), ('C19.b', rule_b), ('C19.c', rule_c), ('C19.d', rule_d), ('C12.f', rule_e)]
+PARSERS = [('rsocket.extensions.composite_metadata', 'CompositeMetadata', 'metadata_item_factory',
+            'metadata_item_factory_by_type'),
+           ('rsocket.extensions.authentication_content', 'AuthenticationContent', 'authentication_item_factory',
+            'metadata_item_factory_by_type')]
+
+
+def _creates_instance(repo, m, f, e, depth=0):
+    """Is `e` (an expression of function f) an object built by this evaluation: K(...), or <factory>(...)() where the
+    factory hands out classes?  Returns (True, why) / (False, why)."""
+    if not isinstance(e, ast.Call):
+        return False, '%s is not a constructor call' % ast.unparse(e)
+    fn = e.func
+    if isinstance(fn, ast.Name):
+        # `cls = factory(...)` ... `cls()`
+        local = [a.value for a in walk_local(f.node) if isinstance(a, ast.Assign) and
+                 any(isinstance(t, ast.Name) and t.id == fn.id for t in a.targets)]
+        if len(local) == 1:
+            fn = local[0]
+    if isinstance(fn, ast.Call):
+        # factory(...)(): the factory must return classes
+        target = repo.resolve_expr(m, fn.func)
+        if isinstance(target, list) and target:
+            ok, why = _returns_classes(repo, target[-1])
+            return ok, why
+        return False, 'cannot resolve the factory %s' % ast.unparse(fn.func)
+    target = repo.resolve_expr(m, fn)
+    if isinstance(target, ClassInfo):
+        return True, ''
+    if isinstance(target, list) and target:
+        # a function handing out the object: fresh only if every return of it builds one
+        from ..astutil import returned_exprs
+        g = target[-1]
+        if depth < 2:
+            rets = list(returned_exprs(g.node))
+            res = [_creates_instance(repo, g.module, g, r, depth + 1) for r in rets]
+            if rets and all(r[0] for r in res):
+                return True, ''
+            return False, '%s() hands out %s, an object that outlives the call' % (
+                g.name, ', '.join(ast.unparse(r) for r, x in zip(rets, res) if not x[0]) or 'nothing')
+    return False, '%s does not resolve to a class' % ast.unparse(fn)
+
+
+def _returns_classes(repo, g):
+    """Every value the registry function g can return is a class (not an instance shared by all callers)."""
+    from ..astutil import returned_exprs
+    m = g.module
+    for r in returned_exprs(g.node):
+        cands = []
+        if isinstance(r, ast.Subscript):
+            cands.append(('table', r.value))
+        elif isinstance(r, ast.Call) and isinstance(r.func, ast.Attribute) and r.func.attr == 'get':
+            cands.append(('table', r.func.value))
+            for a in r.args[1:]:
+                cands.append(('value', a))
+        else:
+            cands.append(('value', r))
+        for kind, e in cands:
+            if kind == 'table':
+                if not isinstance(e, ast.Name) or not m.assigns.get(e.id) or not isinstance(m.assigns[e.id][-1],
+                                                                                            ast.Dict):
+                    return False, '%s() looks its result up in %s, which is not a literal table of this module' % (
+                        g.name, ast.unparse(e))
+                for v in m.assigns[e.id][-1].values:
+                    if not isinstance(repo.resolve_expr(m, v), ClassInfo):
+                        return False, ('the registry %s holds %s, an object and not a class: every entry parsed with it '
+                                       'is the same object' % (e.id, ast.unparse(v)))
+            else:
+                if not isinstance(repo.resolve_expr(m, e), ClassInfo):
+                    return False, '%s() can return %s, which is not a class' % (g.name, ast.unparse(e))
+    return True, ''
+
+
+def rule_f(ctx):
+    """The verifier is handed the request's own authentication entry.  Every entry object a metadata parser fills in
+    is built by that parse: the receiver of each `.parse(<bytes>)` inside CompositeMetadata.parse and
+    AuthenticationContent.parse is assigned - in the same loop iteration - from K(...) or <registry function>(...)()
+    where the registry holds classes.  An object that outlives the parse (a registry of instances, a module-level or
+    memoised item) is overwritten by the next request of that type while a verifier that awaits still looks at it, and
+    the second entry of one request overwrites the first."""
+    rep = ctx.report
+    repo = ctx.repo
+    n = 0
+    for modname, clsname, factory, table in PARSERS:
+        m = repo.module(modname)
+        k = repo.cls('%s:%s' % (modname, clsname))
+        f = k.methods.get('parse') if k is not None else None
+        if f is None:
+            raise AnalysisError('C19.e: %s.%s.parse vanished' % (modname, clsname))
+        sites = [c for c in walk_local(f.node) if isinstance(c, ast.Call) and isinstance(c.func, ast.Attribute) and
+                 c.func.attr == 'parse' and not (isinstance(c.func.value, ast.Call))]
+        if not sites:
+            raise AnalysisError('C19.e: %s.parse fills in no entry' % clsname)
+        for c in sites:
+            n += 1
+            recv = c.func.value
+            text = ast.unparse(recv)
+            stores = [a for a in walk_local(f.node) if isinstance(a, ast.Assign) and
+                      any(ast.unparse(t) == text for t in a.targets)]
+            ok, why = True, ''
+            if len(stores) != 1:
+                ok, why = False, '%s is not assigned exactly once in parse()' % text
+            else:
+                a = stores[0]
+                ok, why = _creates_instance(repo, m, f, a.value)
+                # same loop nesting: the object is built once per entry
+                if ok:
+                    def loops_of(node):
+                        out = []
+                        for l in walk_local(f.node):
+                            if isinstance(l, (ast.While, ast.For)) and any(x is node for x in ast.walk(l)):
+                                out.append(id(l))
+                        return sorted(out)
+                    if loops_of(a) != loops_of(c):
+                        ok, why = False, ('%s is built outside the loop that fills it: every entry of the request is '
+                                          'the same object' % text)
+            rep.add('C19.e', '%s.parse / %s is an object of this parse' % (clsname, text), f, ok,
+                    '%s = %s' % (text, ast.unparse(stores[0].value)) if ok else why)
+    rep.require('C19.e', 'entry objects filled in by the metadata parsers', n, 2)
+
+
+RULES = [('C19.a', rule_a), ('C19.b', rule_b), ('C19.c', rule_c), ('C19.d', rule_d), ('C12.f', rule_e), ('C19.e', rule_f)]
